@@ -23,9 +23,13 @@ var memberSeeds = []memberSeed{
 	{"3v", 4, []uint64{1, 2, 3}, nil, []string{"T:1", "run"},
 		[]string{"demote:2", "remove:3", "forceremove:2", "demote:1", "remove:1", "add:4:promote", "add:4", "demote2:2:3", "flipvoter:2", "stale"}},
 	{"2v+nv", 3, []uint64{1, 2}, []uint64{3}, []string{"T:1", "run"},
-		[]string{"promote:3", "remove:3", "demote:2", "demote:1", "forceremove:2"}},
+		[]string{"promote:3", "remove:3", "demote:2", "demote:1", "forceremove:2", "handover:3"}},
 	{"1v+nv", 2, []uint64{1}, []uint64{2}, []string{"T:1", "run"},
-		[]string{"promote:2", "remove:2"}},
+		[]string{"promote:2", "remove:2", "handover:2"}},
+	// a follower holds a configuration entry that reached nobody else: n1 appended {demote n2} at index 3, only n3
+	// received it, n1 crashed before flushing it and is back without it
+	{"phantom-config", 3, []uint64{1, 2, 3}, nil, []string{"T:1", "run", "admin:1:demote:2", `ev:{"k":"RS","n":0,"f":3}`, "deliver:3", "crash:1", "restart:1"},
+		[]string{"demote:3"}},
 	// promotion already requested; the non-voter still has to catch up
 	{"promoting", 3, []uint64{1, 2}, []uint64{3}, []string{"T:1", "run", "block:1:3", "update:1", "run", "admin:1:promote:3", "run", "heal:1:3"},
 		[]string{"demote:2", "remove:3"}},
